@@ -90,6 +90,7 @@ static bool suffices(sid have, int need)
 void h_fix(void)
 {
     havoc_heap();
+    in_nv = nondet_size_t();
     __CPROVER_assume(in_nv <= NV);
     for (ref v = 1; v <= NV; ++v) {
         int t;
